@@ -22,31 +22,33 @@ import (
 )
 
 type Group struct {
-	Pkg         string                         `json:"pkg"`     // path relative to the repo root
-	Harness     string                         `json:"harness"` // function name
-	Abstract    map[string]string              `json:"abstract"`
-	JustifiedBy []string                       `json:"justified_by"`
-	Params      map[string]int                 `json:"params"`
-	Grid        map[string]map[string][]string `json:"grid"` // tier -> param -> values ("3", "0..70", "0..200/5")
-	TimeoutMs   map[string]int                 `json:"timeout_ms"`
-	Unwind      int                            `json:"unwind"`
-	MaxPaths    int                            `json:"max_paths"`
-	ConcMax     int                            `json:"conc_max"`
-	ConcSample  int                            `json:"conc_sample"`
-	InstanceSec map[string]int                 `json:"instance_sec"`
-	Covers      []string                       `json:"covers"`
-	Tiers       []string                       `json:"tiers"`
-	Solver      string                         `json:"solver"`
-	AllocFactor int                            `json:"alloc_factor"`
-	AllocBase   int                            `json:"alloc_base"`
-	InputLenP   string                         `json:"input_len_param"`
-	Bounds      string                         `json:"bounds"`
-	NoCosim     bool                           `json:"no_cosim"`
-	LossyFmt    bool                           `json:"lossy_fmt"`
-	LockGuard   *symx.LockGuard                `json:"lock_guard"`
-	RaceFn      string                         `json:"race_fn"`
-	Summarize   []string                       `json:"summarize"`
-	CheckPrefix []string                       `json:"check_prefix"`
+	Pkg            string                         `json:"pkg"`     // path relative to the repo root
+	Harness        string                         `json:"harness"` // function name
+	Abstract       map[string]string              `json:"abstract"`
+	JustifiedBy    []string                       `json:"justified_by"`
+	Params         map[string]int                 `json:"params"`
+	Grid           map[string]map[string][]string `json:"grid"` // tier -> param -> values ("3", "0..70", "0..200/5")
+	TimeoutMs      map[string]int                 `json:"timeout_ms"`
+	Unwind         int                            `json:"unwind"`
+	MaxPaths       int                            `json:"max_paths"`
+	ConcMax        int                            `json:"conc_max"`
+	ConcSample     int                            `json:"conc_sample"`
+	InstanceSec    map[string]int                 `json:"instance_sec"`
+	Covers         []string                       `json:"covers"`
+	Tiers          []string                       `json:"tiers"`
+	Solver         string                         `json:"solver"`
+	AllocFactor    int                            `json:"alloc_factor"`
+	AllocBase      int                            `json:"alloc_base"`
+	InputLenP      string                         `json:"input_len_param"`
+	Bounds         string                         `json:"bounds"`
+	NoCosim        bool                           `json:"no_cosim"`
+	LossyFmt       bool                           `json:"lossy_fmt"`
+	PreemptAtLocks bool                           `json:"preempt_at_locks"`
+	FixedClock     bool                           `json:"fixed_clock"`
+	LockGuard      *symx.LockGuard                `json:"lock_guard"`
+	RaceFn         string                         `json:"race_fn"`
+	Summarize      []string                       `json:"summarize"`
+	CheckPrefix    []string                       `json:"check_prefix"`
 }
 
 type Spec struct {
@@ -310,6 +312,8 @@ func main() {
 			cfg.Deadline = time.Now().Add(time.Duration(sec) * time.Second)
 			cfg.AllocFactor, cfg.AllocBase = g.AllocFactor, g.AllocBase
 			cfg.LossyFmt = g.LossyFmt
+			cfg.PreemptAtLocks = g.PreemptAtLocks
+			cfg.FixedClock = g.FixedClock
 			cfg.LockGuard = g.LockGuard
 			cfg.CheckPrefix = g.CheckPrefix
 			cfg.Summarize = map[string]bool{}
